@@ -49,6 +49,9 @@ CLAIMED = {
  "C14": ("fault_enumeration", "deterministic simulation: black-hole fault enumerated over heartbeat phase x transport x direction + seeded search; detection-time oracle on the fake clock",
          "Real eio server/client pairs on all three transport modes with ping values 1-3 s; the link is silently black-holed (both ways or one way) at swept and drawn phases of the heartbeat and of the upgrade; each side must report close with a ping-time-out/transport reason no later than its last received heartbeat + pingInterval + pingTimeout (+ overlapping injected stalls); live mode: 50-80 heartbeat periods with traffic at every phase offset, nobody may close.",
          "§7 C14", TB),
+ "C15": ("exploration", "deterministic simulation: seeded outages (refused dials, black-holed dials, server crash and restart, flapping) x reconnection settings x emits placed before/during/after; back-off, give-up, liveness and buffered-emit oracles on the fake clock; plus labelled enumeration of the back-off function",
+         "Real sio client (manager + socket) with drawn ReconnectionAttempts 0-5, delay, maximum and jitter against (proto mode) the repository's Engine.IO server under a hand-written Socket.IO layer that records the order on the wire, or (sio mode) the real sio server with handlers attached in the connection handler. Outage of a drawn kind and length (0.2-3x the sum of the back-off delays); plain, volatile and ack-carrying emits before, during and after it and in the connect-pending window. Oracle: each delay between a failure and the next attempt lies in (0, max] and in the jitter band of delay x 2^k (attempts and failures paired per cycle); exactly ReconnectionAttempts failures precede exactly one reconnect_failed and nothing follows it; once reachable again the client connects unless it gave up; non-volatile emits made while not connected arrive exactly once, after the CONNECT packet, in emission order, when the next connection lasts; volatile ones made while disconnected never arrive; nothing arrives twice; Emit never blocks. Side run (input enumeration): duration() for min x max x jitter x attempt number 0..70, 100, 1000, 2^31, 2^32-2 is in (0, max].",
+         "§7 C15", TB),
  "C17": ("exploration", "deterministic simulation: exhaustive request matrix per world under seeded stalls; handshakes racing Server.Close; session-store linearizability (porcupine, set model); plus labelled enumeration of id generation",
          "A raw HTTP peer sends the full matrix (6 methods x 5 EIO values x 4 transports x 4 sid kinds x b64 x j = 1920 requests, shuffled per world) to a real eio server holding one live and one closed session: requests with defects get HTTP 400 + a JSON error whose code is one of the defects present, create no session, leave the live session working (probed every 64 requests); requests without defect are served. closerace: 2-12 polling/WebSocket handshakes at instants around Server.Close with stalls on the store and server paths - afterwards every created session is closed, old sids answer no poll, new handshakes are refused. churn: concurrent open/close/probe histories checked for linearizability against a set, sids unique among live sessions. Side run (input enumeration): 2x10^5 (thorough 10^6) GenerateBase64ID calls distinct.",
          "§7 C17", TB),
